@@ -191,11 +191,15 @@ func (c *AbstractTokenizer) ReadNextToken() *Token {
 		return nil
 	}
 
-	line := c.Scanner.PeekLine()
-	column := c.Scanner.PeekColumn()
+	var line, column int
 	var token *Token = nil
 
 	for true {
+		// Every token starts at its own position, also after skipped ones
+		line = c.Scanner.PeekLine()
+		column = c.Scanner.PeekColumn()
+		token = nil
+
 		// Read character
 		nextChar := c.Scanner.Peek()
 
@@ -219,7 +223,6 @@ func (c *AbstractTokenizer) ReadNextToken() *Token {
 
 		// Skip unknown characters if option set.
 		if token.Type() == Unknown && c.skipUnknown {
-			c.LastTokenType = token.Type()
 			continue
 		}
 
@@ -230,7 +233,6 @@ func (c *AbstractTokenizer) ReadNextToken() *Token {
 
 		// Skips comments if option set.
 		if token.Type() == Comment && c.skipComments {
-			c.LastTokenType = token.Type()
 			continue
 		}
 
